@@ -118,7 +118,7 @@ def classify_crash(problems, msg):
     return "unclassified"
 
 
-def crash_case(ctx, wname, k, when, scratch):
+def crash_case(ctx, wname, k, when, scratch, base_dump=None):
     d = os.path.join(scratch, "%s-%d-%s" % (wname, k, when))
     os.makedirs(d)
     w = Workload(wname, d)
@@ -156,6 +156,18 @@ def crash_case(ctx, wname, k, when, scratch):
             except Exception as ex:
                 kind2, key2 = "raised", ("e", type(ex).__name__, str(ex)[:300])
             ctx.count("recovery_runs")
+            if kind2 == "done" and e is None and wname != "pipeline" and base_dump is not None:
+                # after the interrupted recording was repeated, the content-addressed provenance must be complete:
+                # every row of the fault-free recording is present (nothing was lost for good)
+                now = dbaudit.dump(p2)
+                for t in ("call_node", "argument", "argument_result", "call_edge", "call_subtree_task", "evaluation", "task", "subvalue"):
+                    lost = set(base_dump.get(t, [])) - set(now.get(t, []))
+                    ctx.count("recovered_tables_compared")
+                    if lost:
+                        ctx.violation("records-missing-after-interrupted-recording-was-repeated:" + t,
+                                      "after death %s commit %d and a full re-run, %d %s row(s) of the fault-free recording are "
+                                      "still missing, e.g. %s" % (when, k, len(lost), t, sorted(lost)[0][:3]), dict(wit, mode=mode))
+                        break
             if kind2 != "done" or not same(key2, exp):
                 msg = "recovery (%s, %s) after death %s commit %d returned %r; an empty backend returns %r" % (
                     mode, "edit %s" % (e,) if e else "same program", when, k, key2, exp)
@@ -241,7 +253,7 @@ def shard(ctx, wname, points, kind):
         if kind == "crash":
             for k, when in points:
                 if k <= ncommit:
-                    crash_case(ctx, wname, k, when, scratch)
+                    crash_case(ctx, wname, k, when, scratch, base_dump)
         else:
             for s in points:
                 if s <= nstmt:
